@@ -44,6 +44,7 @@ class Producer(Agent):
         self.fields = [("first", ep.first), ("last", ep.last)] + pl + pr
         self.reads = (ep.valid, ep.ready)
         self.accepted = []          # (cycle, token index)
+        self.acc_ticks = []         # global tick number of each acceptance
         self.stalled_cycles = 0
         self.paused_cycles = 0
         self.hold = False           # external hold (fault/controller): do not offer
@@ -56,6 +57,7 @@ class Producer(Agent):
         if self.offering:
             if v[ep.ready]:
                 self.accepted.append((t, self.idx))
+                self.acc_ticks.append(self.bench.clocks.ticks)
                 self.bench.event(self.name, "acc", t, self.idx)
                 self.idx += 1
                 self.offering = False
@@ -110,6 +112,8 @@ class Consumer(Agent):
         self.stall_cycles = 0
         self.ready_now = 0
         self.force_ready = False
+        self.hold = False           # external hold (fault window): ready forced low
+        self.got_ticks = []
         self.quiet = 32             # cycles without a delivery after which the consumer is "done"
         self.last_activity = 0
         self.now = 0
@@ -118,7 +122,7 @@ class Consumer(Agent):
         if self.expect is not None:
             return len(self.got) >= self.expect
         # quiet = no handshake anywhere in the bench (accept or delivery) for `quiet` cycles
-        return self.bench.cycle[self.bench.domains[0]] - self.bench.last_event >= self.quiet
+        return self.bench.clocks.ticks - self.bench.last_event >= self.quiet
 
     def step(self, v, t, w):
         ep = self.ep
@@ -143,6 +147,7 @@ class Consumer(Agent):
         if valid and ready:
             d = {n: x for (n, _), x in zip(self.fields, tok)}
             self.got.append((t, d))
+            self.got_ticks.append(self.bench.clocks.ticks)
             self.last_activity = t
             self.bench.event(self.name, "got", t, tok)
             self.prev = None
@@ -152,7 +157,9 @@ class Consumer(Agent):
         else:
             self.prev = None
         # next ready
-        if self.force_ready or t >= len(self.pattern):
+        if self.hold:
+            r = 0
+        elif self.force_ready or t >= len(self.pattern):
             r = 1
         else:
             r = 1 if self.pattern[t] == "1" else 0
